@@ -34,6 +34,8 @@ struct StepIdx {
     snap: usize,
     lower_snaps: Vec<usize>,
     base_snap: Option<usize>,
+    /// trait calls recorded while the harness took its snapshot of the target (observers only)
+    snap_log: usize,
 }
 
 fn uni_args(prefix: &str, extra: &[&str]) -> String {
@@ -228,8 +230,35 @@ pub fn run(o: &Opts) -> Report {
                 let (i, _) = push(&mut world, &mut lines, &mut impl_out, lower_snap_cmd(*f, &alt_root));
                 prev_lower.push(i);
             }
+            // follow-ups queued after a removal: bring the entry back, then observe its directory and
+            // everything above it (bookkeeping left behind by the removal must not make observers write)
+            let mut queued: Vec<Op> = vec![];
+            if prop == "C08" && r % 2 == 0 {
+                // prelude of every second run: remove an entry of a non-root directory, bring it back
+                // (the bookkeeping directory of its parent is then left EMPTY), then observe
+                let mk = |name: &'static str, path: &str, bytes: Option<Vec<u8>>| Op { name, path: path.to_string(), bytes, dest: None, time: None };
+                let (dir, child) = *rng.pick(&[("/c", "/c/d"), ("/a", "/a/a"), ("/a/a", "/a/a/b")][..]);
+                queued = vec![
+                    mk("create_dir_all", dir, None),
+                    mk("write", child, Some(b"one".to_vec())),
+                    mk("remove_file", child, None),
+                    mk("write", child, Some(b"two".to_vec())),
+                    mk("read_dir", dir, None),
+                    mk("walk", "", None),
+                    mk("metadata", child, None),
+                    mk("read", child, None),
+                ];
+            }
             for _ in 0..n_ops {
-                let mut op = gen_op(&mut rng, &ts, &snap, &cfg);
+                let mut op = if queued.is_empty() { gen_op(&mut rng, &ts, &snap, &cfg) } else { queued.remove(0) };
+                if prop == "C08" && queued.is_empty() && matches!(op.name, "remove_file" | "remove_dir") && op.path.matches('/').count() >= 2 && rng.chance(1, 2) {
+                    let parent = op.path[..op.path.rfind('/').unwrap()].to_string();
+                    let mk = |name: &'static str, path: &str, bytes: Option<Vec<u8>>| Op { name, path: path.to_string(), bytes, dest: None, time: None };
+                    queued.push(if op.name == "remove_file" { mk("write", &op.path, Some(b"again".to_vec())) } else { mk("create_dir", &op.path, None) });
+                    queued.push(mk("read_dir", &parent, None));
+                    queued.push(mk("walk", "", None));
+                    queued.push(mk("exists", &parent, None));
+                }
                 if prop == "C07" && rng.chance(1, 5) {
                     // hostile path expressions: however many '..' and absolute segments
                     op.path = hostile_path(&mut rng);
@@ -254,9 +283,11 @@ pub fn run(o: &Opts) -> Report {
                 } else {
                     None
                 };
+                push(&mut world, &mut lines, &mut impl_out, "clearlog".into());
                 let (si, s) = push(&mut world, &mut lines, &mut impl_out, format!("snap {} {}", target, uni));
+                let (sli, _) = push(&mut world, &mut lines, &mut impl_out, "log".into());
                 snap = parse_snap(&s);
-                steps.push(StepIdx { op: oi, log: li, snap: si, lower_snaps: ls, base_snap });
+                steps.push(StepIdx { op: oi, log: li, snap: si, lower_snaps: ls, base_snap, snap_log: sli });
                 ops.push(op);
             }
             if r == 0 {
@@ -291,6 +322,7 @@ pub fn run(o: &Opts) -> Report {
             }
         }
         let mut dead = false;
+        let mut corr_dead = false;
         for (si, st) in r.steps.iter().enumerate() {
             if dead {
                 break;
@@ -389,14 +421,32 @@ pub fn run(o: &Opts) -> Report {
             if op.is_observer() {
                 rep.count("observer-steps");
             }
+            // the harness's own snapshot consists of observers only (exists, metadata, read_dir,
+            // open_file + read on every universe path): none of them may issue a mutating call
+            if prop == "C08" {
+                for t in imp(st.snap_log).split(' ').filter(|t| !t.is_empty()) {
+                    let mut it = t.splitn(3, ':');
+                    let tag = it.next().unwrap_or("?");
+                    let method = it.next().unwrap_or("?").trim_start_matches("Vfs.Method.").to_string();
+                    let path = dec_str(it.next().unwrap_or("s"));
+                    if is_mutating(&method) {
+                        rep.fail(mk("prop", format!("ovl:snapshot:observer-issued-mutating-call:{}", method), format!("while the tree was only being observed (exists/metadata/read_dir/open_file on the universe), layer {} received the mutating call {}({:?})", tag, method, path), imp(st.snap_log), "", st.snap_log));
+                        break;
+                    }
+                }
+            }
             if imp(st.op) == "panic" {
                 dead = true;
                 continue;
             }
-            // ---- CORR
+            // ---- CORR (stops at the first disagreement of a run; the PROP predicates above are on the
+            // implementation's own recordings and go on to the end of the run)
+            if corr_dead {
+                continue;
+            }
             if project(imp(st.op), 1) != project(&model[st.op], 1) && opname != "walk" && opname != "metadata_t" {
                 rep.fail(mk("corr", format!("{}:{}:result", if prop == "C08" { "ovl" } else { "alt" }, opname), format!("result: implementation {} / model {}", imp(st.op), model[st.op]), imp(st.op), &model[st.op], st.op));
-                dead = true;
+                corr_dead = true;
             }
             let norm = |s: &str| {
                 let mut v: Vec<&str> = s.split(' ').collect();
@@ -405,16 +455,16 @@ pub fn run(o: &Opts) -> Report {
             };
             if norm(imp(st.log)) != norm(&model[st.log]) {
                 rep.fail(mk("corr", format!("{}:{}:recorded-calls", if prop == "C08" { "ovl" } else { "alt" }, opname), format!("recorded trait calls differ: implementation [{}] / model [{}]", pretty_log(imp(st.log)), pretty_log(&model[st.log])), imp(st.log), &model[st.log], st.log));
-                dead = true;
+                corr_dead = true;
             }
             if *imp(st.snap) != model[st.snap] {
                 rep.fail(mk("corr", format!("{}:{}:snapshot", if prop == "C08" { "ovl" } else { "alt" }, opname), format!("snapshot differs: {}", crate::tree_stream::first_diff(imp(st.snap), &model[st.snap])), imp(st.snap), &model[st.snap], st.snap));
-                dead = true;
+                corr_dead = true;
             }
             for li in &st.lower_snaps {
                 if !r.cfg.contains("phys") && *imp(*li) != model[*li] {
                     rep.fail(mk("corr", format!("{}:{}:inner-snapshot", if prop == "C08" { "ovl" } else { "alt" }, opname), format!("inner layer snapshot differs: {}", diff_t(imp(*li), &model[*li])), imp(*li), &model[*li], *li));
-                    dead = true;
+                    corr_dead = true;
                 }
             }
         }
